@@ -68,7 +68,7 @@ __all__ = [
     "Frequency",
     "Illuminance",
     "Length",
-    "LinearDensity"
+    "LinearDensity",
     "LuminousFlux",
     "LuminousIntensity",
     "MagneticFlux",
@@ -111,7 +111,7 @@ __all__ = [
     "FrequencyDist",
     "IlluminanceDist",
     "LengthDist",
-    "LinearDensity"
+    "LinearDensityDist",
     "LuminousFluxDist",
     "LuminousIntensityDist",
     "MagneticFluxDist",
